@@ -135,8 +135,10 @@ pub fn record(opts: &Opts) -> Result<(), String> {
     for case in 0..n {
         // 1. a conflict of 2..4 sides: pool of contents, terms drawn from it
         let n_simpl = *rng.pick(&[3usize, 3, 3, 5, 5, 7]);
-        let shape = rng.below(10);
-        let mut contents: Vec<Option<Vec<u8>>> = if shape < 3 {
+        // edited cases mostly use anchored texts so that the edit can land in resolved text
+        let edited = rng.chance(3, 5);
+        let anchored = if edited { rng.chance(4, 5) } else { rng.chance(3, 10) };
+        let mut contents: Vec<Option<Vec<u8>>> = if anchored {
             // anchored texts: a common first and last line so that resolved regions exist
             let mid = rand_conflict(&mut rng, n_simpl, &mv);
             mid.into_iter()
@@ -154,7 +156,7 @@ pub fn record(opts: &Opts) -> Result<(), String> {
             rand_conflict(&mut rng, n_simpl, &mv).into_iter().map(Some).collect()
         };
         // absent sides
-        if rng.chance(1, 4) {
+        if rng.chance(1, if edited { 10 } else { 3 }) {
             let k = rng.below(contents.len());
             contents[k] = None;
         }
@@ -188,7 +190,7 @@ pub fn record(opts: &Opts) -> Result<(), String> {
                 &labels,
                 &ConflictMaterializeOptions { marker_style: style.1, marker_len: None, merge: merge_opts.clone() },
             );
-            let (kind, at, new) = if rng.chance(2, 5) {
+            let (kind, at, new) = if !edited {
                 ("none".to_string(), 0, mat.to_vec())
             } else {
                 let ts: Vec<Vec<u8>> = old_contents.iter().map(|c| c.to_vec()).collect();
